@@ -16,7 +16,14 @@
 #include "opentelemetry/sdk/trace/id_generator.h"
 #include "opentelemetry/sdk/trace/simple_processor.h"
 #include "opentelemetry/sdk/trace/span_data.h"
+#include "opentelemetry/sdk/instrumentationscope/scope_configurator.h"
+#include "opentelemetry/sdk/trace/provider.h"
+#include "opentelemetry/sdk/trace/tracer_config.h"
+#include "opentelemetry/sdk/trace/tracer_context.h"
 #include "opentelemetry/sdk/trace/tracer_provider.h"
+#include "opentelemetry/sdk/trace/tracer_provider_factory.h"
+#include "opentelemetry/trace/noop.h"
+#include "opentelemetry/trace/provider.h"
 #include "opentelemetry/trace/context.h"
 #include "opentelemetry/trace/default_span.h"
 #include "opentelemetry/trace/scope.h"
@@ -125,7 +132,12 @@ public:
                                          trace_api::SpanKind k, const common::KeyValueIterable &a,
                                          const trace_api::SpanContextKeyValueIterable &l) noexcept override
   {
-    return s_->ShouldSample(p, id, name, k, a, l);
+    // a sampler may hand attributes back (tracer.cc copies them onto the new span): done for every server-kind span;
+    // decision and trace state stay the wrapped sampler's
+    trace_sdk::SamplingResult r = s_->ShouldSample(p, id, name, k, a, l);
+    if (k == trace_api::SpanKind::kServer && !r.attributes)
+      r.attributes.reset(new std::map<std::string, opentelemetry::common::AttributeValue>{{"sampled.by", "c05"}, {"n", int64_t{1}}});
+    return r;
   }
   nostd::string_view GetDescription() const noexcept override { return s_->GetDescription(); }
 
@@ -190,10 +202,40 @@ static bool parse_sc_lit(const std::string &s, trace_api::SpanContext &out)
   return parse_parent(p[0] + "/" + p[1] + "/" + p[2] + "/" + p[3] + "/" + p[4], out);
 }
 
+// every other accessor of the context must tell the same story as the fields printed (TraceFlags::IsSampled / IsRandom /
+// ToLowerBase16 / CopyBytesTo / == / !=, SpanContext::IsSampled / IsValid / ==, SpanId::Id, TraceId::Id): "" or "!<what>"
+static std::string accessor_check(const trace_api::SpanContext &sc)
+{
+  std::string bad;
+  trace_api::TraceFlags f = sc.trace_flags();
+  char hx[2];
+  f.ToLowerBase16(nostd::span<char, 2>(hx, 2));
+  uint8_t fb[1];
+  f.CopyBytesTo(nostd::span<uint8_t, 1>(fb, 1));
+  if (std::string(hx, 2) != flags_hex(f)) bad += "!flags-base16";
+  if (fb[0] != f.flags()) bad += "!flags-bytes";
+  if (f.IsSampled() != ((f.flags() & 1) != 0) || sc.IsSampled() != f.IsSampled()) bad += "!is-sampled";
+  if (f.IsRandom() != ((f.flags() & 2) != 0)) bad += "!is-random";
+  trace_api::TraceFlags same(f.flags()), other(static_cast<uint8_t>(f.flags() ^ 1));
+  if (!(f == same) || (f != same) || (f == other) || !(f != other)) bad += "!flags-eq";
+  uint8_t sb[8], tb[16];
+  sc.span_id().CopyBytesTo(nostd::span<uint8_t, 8>(sb, 8));
+  sc.trace_id().CopyBytesTo(nostd::span<uint8_t, 16>(tb, 16));
+  if (memcmp(sc.span_id().Id().data(), sb, 8) != 0 || memcmp(sc.trace_id().Id().data(), tb, 16) != 0) bad += "!id-bytes";
+  bool sz = true, tz = true;
+  for (uint8_t b : sb) sz = sz && b == 0;
+  for (uint8_t b : tb) tz = tz && b == 0;
+  if (sc.IsValid() != (!sz && !tz) || sc.span_id().IsValid() == sz || sc.trace_id().IsValid() == tz) bad += "!is-valid";
+  trace_api::SpanContext copy(sc.trace_id(), sc.span_id(), f, sc.IsRemote(), sc.trace_state());
+  trace_api::SpanContext flipped(sc.trace_id(), sc.span_id(), other, sc.IsRemote(), sc.trace_state());
+  if (!(copy == sc) || (flipped == sc)) bad += "!context-eq";
+  return bad;
+}
+
 static std::string show_sc(const trace_api::SpanContext &sc)
 {
   return id_hex(sc.trace_id()) + "." + id_hex(sc.span_id()) + "." + flags_hex(sc.trace_flags()) + "." +
-         (sc.IsRemote() ? "1" : "0") + "." + entries_plain(sc.trace_state());
+         (sc.IsRemote() ? "1" : "0") + "." + entries_plain(sc.trace_state()) + accessor_check(sc);
 }
 
 static bool parse_uint(const std::string &s, size_t &out)
@@ -284,6 +326,7 @@ struct Op
   size_t t = 0, k = 0;
   ParentSpec parent;
   std::string name;
+  bool disabled = false;   // `startx`: StartSpan on the tracer that the provider's ScopeConfigurator disables
 };
 
 static std::string handle_tr(const std::vector<std::string> &toks)
@@ -308,9 +351,10 @@ static std::string handle_tr(const std::vector<std::string> &toks)
   {
     auto &g = groups[i];
     Op op;
-    if (g.size() == 4 && g[0] == "start")
+    if (g.size() == 4 && (g[0] == "start" || g[0] == "startx"))
     {
-      op.kind = Op::kStart;
+      op.kind     = Op::kStart;
+      op.disabled = g[0] == "startx";
       if (!parse_uint(g[1], op.t) || op.t >= nthreads || !parse_parent_spec(g[2], op.parent)) return "bad-op";
       if ((op.parent.kind == ParentSpec::kOfSpan || (op.parent.kind == ParentSpec::kCtx && op.parent.ref == ParentSpec::kRefOf)) &&
           op.parent.k >= nspans)
@@ -343,14 +387,71 @@ static std::string handle_tr(const std::vector<std::string> &toks)
   std::vector<std::string> outs;
   std::vector<size_t> final_exported;
   {
-    trace_sdk::TracerProvider provider(
-        std::unique_ptr<trace_sdk::SpanProcessor>(
-            new trace_sdk::SimpleSpanProcessor(std::unique_ptr<trace_sdk::SpanExporter>(new RecordingExporter(sink)))),
-        opentelemetry::sdk::resource::Resource::Create({}), std::unique_ptr<trace_sdk::Sampler>(new ForwardSampler(sampler)),
-        std::unique_ptr<trace_sdk::IdGenerator>(new CounterIdGenerator(h[1] == "1", static_cast<uint64_t>(sbase), tbase)));
-    auto tracer = provider.GetTracer("c05", "1");
+    // The provider is built through a different constructor / factory per case and the tracer is obtained either from it
+    // directly or through the global API provider (api Provider::SetTracerProvider or the SDK's wrapper of it); which
+    // one is a function of the case (number of operations) - the observation must not depend on it.
+    auto mk_proc = [&] {
+      return std::unique_ptr<trace_sdk::SpanProcessor>(
+          new trace_sdk::SimpleSpanProcessor(std::unique_ptr<trace_sdk::SpanExporter>(new RecordingExporter(sink))));
+    };
+    auto mk_procs = [&] {
+      std::vector<std::unique_ptr<trace_sdk::SpanProcessor>> v;
+      v.push_back(mk_proc());
+      return v;
+    };
+    using Cfgr = opentelemetry::sdk::instrumentationscope::ScopeConfigurator<trace_sdk::TracerConfig>;
+    auto mk_conf = [&] {
+      return std::unique_ptr<Cfgr>(new Cfgr(Cfgr::Builder(trace_sdk::TracerConfig::Default())
+                                                .AddConditionNameEquals("c05.off", trace_sdk::TracerConfig::Disabled())
+                                                .Build()));
+    };
+    auto mk_sampler = [&] { return std::unique_ptr<trace_sdk::Sampler>(new ForwardSampler(sampler)); };
+    auto mk_gen     = [&] {
+      return std::unique_ptr<trace_sdk::IdGenerator>(new CounterIdGenerator(h[1] == "1", static_cast<uint64_t>(sbase), tbase));
+    };
+    auto resource = opentelemetry::sdk::resource::Resource::Create({});
+    std::shared_ptr<trace_sdk::TracerProvider> provider;
+    switch (ops.size() % 5)
+    {
+      case 1:
+        provider = trace_sdk::TracerProviderFactory::Create(mk_proc(), resource, mk_sampler(), mk_gen(), mk_conf());
+        break;
+      case 2:
+        provider.reset(new trace_sdk::TracerProvider(mk_procs(), resource, mk_sampler(), mk_gen(), mk_conf()));
+        break;
+      case 3:
+        provider = trace_sdk::TracerProviderFactory::Create(mk_procs(), resource, mk_sampler(), mk_gen(), mk_conf());
+        break;
+      case 4:
+        provider.reset(new trace_sdk::TracerProvider(std::unique_ptr<trace_sdk::TracerContext>(
+            new trace_sdk::TracerContext(mk_procs(), resource, mk_sampler(), mk_gen(), mk_conf()))));
+        break;
+      default:
+        provider.reset(new trace_sdk::TracerProvider(mk_proc(), resource, mk_sampler(), mk_gen(), mk_conf()));
+        break;
+    }
+    nostd::shared_ptr<trace_api::Tracer> tracer, tracer_off;
+    const size_t via_global = (ops.size() / 5) % 3;   // 0 direct, 1 api Provider, 2 sdk Provider
+    if (via_global != 0)
+    {
+      nostd::shared_ptr<trace_api::TracerProvider> api_provider{std::shared_ptr<trace_api::TracerProvider>(provider)};
+      if (via_global == 1) trace_api::Provider::SetTracerProvider(api_provider);
+      else trace_sdk::Provider::SetTracerProvider(api_provider);
+      tracer     = trace_api::Provider::GetTracerProvider()->GetTracer("c05", "1");
+      tracer_off = trace_api::Provider::GetTracerProvider()->GetTracer("c05.off", "1");
+      // the global slot goes back to the API's no-op provider right away: tracers and spans keep the SDK objects alive
+      trace_api::Provider::SetTracerProvider(
+          nostd::shared_ptr<trace_api::TracerProvider>(new trace_api::NoopTracerProvider));
+    }
+    else
+    {
+      tracer     = provider->GetTracer("c05", "1");
+      tracer_off = provider->GetTracer("c05.off", "1");
+    }
+    provider.reset();   // the tracers own the context from here on
     std::vector<nostd::shared_ptr<trace_api::Span>> spans;
     std::vector<bool> ended;
+    std::vector<std::string> started_ctx;   // what GetContext() said when the span was started
     Workers w(nthreads);
     for (auto &op : ops)
     {
@@ -378,47 +479,86 @@ static std::string handle_tr(const std::vector<std::string> &toks)
             // the name lives in an exact-size block that is released right after the call
             std::unique_ptr<vh::Exact> nm(new vh::Exact(op.name));
             // the overloads of the API header that take attributes and / or links funnel into the same virtual call: which
-            // one is used rotates with the number of spans started so far - parent, kind and times must get through all
+            // one is used rotates with the number of spans started so far - parent, kind and times must get through all.
+            // Attributes are non-empty and the link target is a valid context of another trace: it must never be taken for
+            // the parent.  Kind and explicit start times rotate too: none of them may touch the identity.
             nostd::string_view nsv(nm->data(), nm->size());
             nostd::shared_ptr<trace_api::Span> sp;
-            switch (spans.size() % 5)
+            const size_t n = spans.size();
+            opts.kind      = static_cast<trace_api::SpanKind>(n % 5);
+            if (n % 3 == 1)
+            {
+              opts.start_system_time = opentelemetry::common::SystemTimestamp(std::chrono::nanoseconds(1000000 + n));
+              opts.start_steady_time = opentelemetry::common::SteadyTimestamp(std::chrono::nanoseconds(2000000 + n));
+            }
+            static const uint8_t ltid[16] = {0xaa, 0xaa, 0xaa, 0xaa, 0xaa, 0xaa, 0xaa, 0xaa, 0xaa, 0xaa, 0xaa, 0xaa, 0xaa, 0xaa, 0xaa, 0xa1};
+            static const uint8_t lsid[8]  = {0xbb, 0xbb, 0xbb, 0xbb, 0xbb, 0xbb, 0xbb, 0xb1};
+            trace_api::SpanContext link_target(trace_api::TraceId(ltid), trace_api::SpanId(lsid), trace_api::TraceFlags(0xff), true);
+            using AttrVec = std::vector<std::pair<nostd::string_view, opentelemetry::common::AttributeValue>>;
+            trace_api::Tracer &tr = op.disabled ? *tracer_off : *tracer;
+            switch (n % 9)
             {
               case 1:
               {
-                std::map<std::string, int64_t> none;
-                opentelemetry::common::KeyValueIterableView<std::map<std::string, int64_t>> kv(none);
-                sp = tracer->StartSpan(nsv, static_cast<const opentelemetry::common::KeyValueIterable &>(kv), opts);
+                std::map<std::string, int64_t> m{{"k", 1}};
+                opentelemetry::common::KeyValueIterableView<std::map<std::string, int64_t>> kv(m);
+                sp = tr.StartSpan(nsv, static_cast<const opentelemetry::common::KeyValueIterable &>(kv), opts);
                 break;
               }
               case 2:
               {
-                std::vector<std::pair<nostd::string_view, opentelemetry::common::AttributeValue>> none;
-                sp = tracer->StartSpan(nsv, none, opts);
+                AttrVec av{{"a", int64_t{7}}};
+                sp = tr.StartSpan(nsv, av, opts);
                 break;
               }
               case 3:
-                sp = tracer->StartSpan(nsv, {}, opts);
+                sp = tr.StartSpan(nsv, {}, opts);
                 break;
               case 4:
               {
-                std::vector<std::pair<nostd::string_view, opentelemetry::common::AttributeValue>> none;
-                std::vector<std::pair<trace_api::SpanContext, std::vector<std::pair<nostd::string_view, opentelemetry::common::AttributeValue>>>> nolinks;
-                sp = tracer->StartSpan(nsv, none, nolinks, opts);
+                AttrVec av{{"a", true}};
+                std::vector<std::pair<trace_api::SpanContext, AttrVec>> links{{link_target, AttrVec{{"l", 1.5}}}};
+                sp = tr.StartSpan(nsv, av, links, opts);
+                break;
+              }
+              case 5:
+                sp = tr.StartSpan(nsv, {{"a", int64_t{1}}, {"b", "x"}}, opts);
+                break;
+              case 6:
+              {
+                AttrVec av{{"a", int64_t{2}}};
+                sp = tr.StartSpan(nsv, av, {{link_target, {{"l", int64_t{3}}}}}, opts);
+                break;
+              }
+              case 7:
+                sp = tr.StartSpan(nsv, {{"a", int64_t{4}}}, {{link_target, {{"l", int64_t{5}}}}, {link_target, {}}}, opts);
+                break;
+              case 8:
+              {
+                std::map<std::string, int64_t> m{{"k", 2}};
+                opentelemetry::common::KeyValueIterableView<std::map<std::string, int64_t>> kv(m);
+                std::vector<std::pair<trace_api::SpanContext, AttrVec>> links{{link_target, AttrVec{}}};
+                trace_api::SpanContextKeyValueIterableView<std::vector<std::pair<trace_api::SpanContext, AttrVec>>> lv(links);
+                sp = tr.StartSpan(nsv, static_cast<const opentelemetry::common::KeyValueIterable &>(kv),
+                                  static_cast<const trace_api::SpanContextKeyValueIterable &>(lv), opts);
                 break;
               }
               default:
-                sp = tracer->StartSpan(nsv, opts);
+                sp = tr.StartSpan(nsv, opts);
                 break;
             }
             nm.reset();
             spans.push_back(sp);
             ended.push_back(false);
-            out = "s=" + show_sc(sp->GetContext()) + " rec=" + (sp->IsRecording() ? "1" : "0");
+            started_ctx.push_back(show_sc(sp->GetContext()));
+            out = "s=" + started_ctx.back() + " rec=" + (sp->IsRecording() ? "1" : "0");
           });
           break;
         case Op::kScope:
           w.run_on(op.t, [&] {
-            w.scopes[op.t].emplace_back(new trace_api::Scope(spans[op.k]));
+            // `Scope(span)` and `Tracer::WithActiveSpan(span)` alternate
+            if ((w.scopes[op.t].size() + op.k) % 2 == 0) w.scopes[op.t].emplace_back(new trace_api::Scope(spans[op.k]));
+            else w.scopes[op.t].emplace_back(new trace_api::Scope(trace_api::Tracer::WithActiveSpan(spans[op.k])));
             out = "act=" + id_hex(trace_api::Tracer::GetCurrentSpan()->GetContext().span_id());
           });
           break;
@@ -431,11 +571,30 @@ static std::string handle_tr(const std::vector<std::string> &toks)
         case Op::kEnd:
           w.run_on(0, [&] {
             size_t before = sink->size();
-            spans[op.k]->End();
+            // whatever else is done to a span (recording Span, NoopSpan of a dropped span or of the disabled tracer) - its
+            // identity stays what it was at the start, before and after End
+            auto &spn = spans[op.k];
+            std::map<std::string, int64_t> m{{"e", 1}};
+            opentelemetry::common::KeyValueIterableView<std::map<std::string, int64_t>> ekv(m);
+            opentelemetry::common::SystemTimestamp ts(std::chrono::nanoseconds(3000000 + op.k));
+            switch ((op.k + outs.size()) % 8)
+            {
+              case 1: spn->SetAttribute("late", int64_t{1}); break;
+              case 2: spn->AddEvent("ev"); break;
+              case 3: spn->AddEvent("ev", ts); break;
+              case 4: spn->AddEvent("ev", ekv); break;
+              case 5: spn->AddEvent("ev", ts, ekv); break;
+              case 6: spn->SetStatus(trace_api::StatusCode::kError, "why"); break;
+              case 7: spn->UpdateName("0=null"); break;
+              default: break;
+            }
+            std::string mid = show_sc(spn->GetContext());
+            spn->End();
             ended[op.k] = true;
             if (sink->size() == before) out = "noexp";
             else if (sink->size() == before + 1) out = sink->back().text;
             else out = "exp=!more-than-one";
+            if (mid != started_ctx[op.k] || show_sc(spn->GetContext()) != started_ctx[op.k]) out += "!context-changed-after-start";
           });
           break;
       }
@@ -474,13 +633,28 @@ static std::string handle_tr(const std::vector<std::string> &toks)
 #include <thread>
 #include <unistd.h>
 #include "opentelemetry/sdk/trace/random_id_generator.h"
+#include "opentelemetry/sdk/trace/random_id_generator_factory.h"
+#include "opentelemetry/sdk/trace/samplers/always_on.h"
 static std::string handle_rid(const std::vector<std::string> &t)
 {
   if (t.size() != 4) return "bad-op";
   char *e1 = nullptr, *e2 = nullptr;
   unsigned long nt = strtoul(t[1].c_str(), &e1, 10), k = strtoul(t[2].c_str(), &e2, 10);
   if (*e1 || *e2 || nt == 0 || nt > 8 || k == 0 || k > 64 || (t[3] != "0" && t[3] != "1")) return "bad-op";
-  opentelemetry::sdk::trace::RandomIdGenerator gen;
+  // which way the real generator is built is a function of the case text (FNV-1a), so a case replays the same way: half of
+  // the cases through RandomIdGeneratorFactory::Create(), half through the constructor
+  uint64_t hsh = 1469598103934665603ull;
+  for (size_t i = 1; i < 4; i++)
+  {
+    for (char c : t[i]) hsh = (hsh ^ static_cast<uint8_t>(c)) * 1099511628211ull;
+    hsh = (hsh ^ ' ') * 1099511628211ull;
+  }
+  const bool via_factory = (hsh >> 7) & 1;
+  std::unique_ptr<trace_sdk::IdGenerator> gen_owner =
+      via_factory ? trace_sdk::RandomIdGeneratorFactory::Create()
+                  : std::unique_ptr<trace_sdk::IdGenerator>(new trace_sdk::RandomIdGenerator());
+  if (!gen_owner) return "dups=0 zero=0 forkclash=0!no-generator";
+  trace_sdk::IdGenerator &gen = *gen_owner;
   auto span_hex = [&](void) {
     auto id = gen.GenerateSpanId();
     char b[16];
@@ -504,6 +678,45 @@ static std::string handle_rid(const std::vector<std::string> &t)
       }
     });
   for (auto &x : th) x.join();
+  // ... and a provider that is given no generator (the default one of the constructor, the factory forms that call
+  // RandomIdGeneratorFactory::Create themselves) or the one built above: k root spans, whose span and trace ids join the sample
+  {
+    auto sink = std::make_shared<std::vector<Exported>>();
+    std::unique_ptr<trace_sdk::SpanProcessor> proc(
+        new trace_sdk::SimpleSpanProcessor(std::unique_ptr<trace_sdk::SpanExporter>(new RecordingExporter(sink))));
+    auto res = opentelemetry::sdk::resource::Resource::Create({});
+    std::unique_ptr<trace_sdk::TracerProvider> prov;
+    switch ((hsh >> 11) % 4)
+    {
+      case 0:
+        prov.reset(new trace_sdk::TracerProvider(std::move(proc)));
+        break;
+      case 1:
+        prov = trace_sdk::TracerProviderFactory::Create(std::move(proc));
+        break;
+      case 2:
+        prov = trace_sdk::TracerProviderFactory::Create(std::move(proc), res,
+                                                        std::unique_ptr<trace_sdk::Sampler>(new trace_sdk::AlwaysOnSampler));
+        break;
+      default:
+        prov = trace_sdk::TracerProviderFactory::Create(
+            std::move(proc), res, std::unique_ptr<trace_sdk::Sampler>(new trace_sdk::AlwaysOnSampler),
+            via_factory ? trace_sdk::RandomIdGeneratorFactory::Create()
+                        : std::unique_ptr<trace_sdk::IdGenerator>(new trace_sdk::RandomIdGenerator()));
+        break;
+    }
+    auto tr = prov->GetTracer("rid", "1");
+    for (unsigned long j = 0; j < k; j++)
+    {
+      auto sp = tr->StartSpan("r");
+      auto sc = sp->GetContext();
+      per[0].push_back(id_hex(sc.span_id()));
+      per[0].push_back(id_hex(sc.trace_id()));
+      if (!sp->IsRecording() || !sc.IsValid() || (sc.trace_flags().flags() & ~1) != 0) per[0].push_back("0");   // counted as a zero id
+      sp->End();
+    }
+    if (sink->size() != k) per[0].push_back("0");
+  }
   std::set<std::string> seen;
   int dups = 0, zero = 0;
   for (auto &v : per)
